@@ -421,6 +421,24 @@ def stepC14 (op obs : String) : String :=
   if (obs.splitOn "timeout").length > 1 then "PROPFAIL does-not-terminate" else
   match words op with
   | "radix" :: dir :: args => stepRadix dir args obs
+  | ["normint", kind, dec] =>
+    (match dec.toInt? with
+     | none => "BADOP normint"
+     | some v =>
+       let g : Option GoInt := match kind with
+         | "int" => some (.int v) | "int64" => some (.int64 v) | "uint64" => some (.uint64 v) | "big" => some (.big v)
+         | _ => none
+       match g with
+       | none => "BADOP normint-kind"
+       | some g =>
+         if !g.valid then "BADOP normint-range" else
+         let m := match toGoJQInt g with
+           | .int x => s!"int:{x}"
+           | .big x => s!"big:{x}"
+         -- the property, independent of the model: an int iff the value fits an int
+         let want := if minInt ≤ v ∧ v ≤ maxInt then s!"int:{v}" else s!"big:{v}"
+         if obs != want then mkVerdict (some s!"integer-not-canonical want={want}") (if obs != m then some m else none)
+         else if obs != m then s!"DIVERGE model={m}" else "OK")
   | ["urlquery", dir, input] => stepUrlQuery dir input obs
   | ["csv", dir, input] => stepCsv dir input obs
   | ["xmlarr", "rt", input] => stepXmlArr input obs
